@@ -1,8 +1,18 @@
 /-
   C12 — Selected-rule calls run exactly the named rules, in the promised order.
 -/
-import GV.Orch.AllConform
-import GV.Props.C04
+import GV.Orch.Conf.ExecuteSelectedRules
+import GV.Orch.Conf.ExecuteSelectedRulesWithControl
+import GV.Orch.Conf.ExecuteSelectedRulesWithControlAsGivenSortedName
+import GV.Orch.Conf.ExecuteSelectedRulesWithControlAndStopTag
+import GV.Orch.Conf.ExecuteSelectedRulesWithControlAndStopTagAsGivenSortedName
+import GV.Orch.Conf.ExecuteSelectedRulesConcurrent
+import GV.Orch.Conf.ExecuteSelectedRulesMixModel
+import GV.Orch.Conf.ExecuteSelectedRulesInverseMixModel
+import GV.Orch.Conf.ExecuteSelectedNSortMConcurrent
+import GV.Orch.Conf.ExecuteSelectedNConcurrentMSort
+import GV.Orch.Conf.ExecuteSelectedNConcurrentMConcurrent
+import GV.Props.C04Lemmas
 namespace GV.Props.C12
 open GV.Orch GV.Generated.Orch
 
